@@ -42,6 +42,12 @@ NAME_CLASSES = {
     "newline-inside": "line\nbreak",
     "double-blank": "two  blanks",
     "cr-inside": "cr\rhere",
+    "crlf-inside": "line1\r\nline2",
+    "dot-and-punct": "v1.0-beta",
+    "dot-inside": "a.b",
+    "decomposed-accent": "cafe\u0301 bar",
+    "composed-accent": "caf\u00e9 bar",
+    "angstrom-sign": "\u212b unit",
 }
 
 
@@ -49,6 +55,31 @@ def new_interp(pm: ProgramModel, vfs: VFS, depth: int = 80) -> Interp:
     it = Interp(pm, max_depth=depth)
     install_io(it, vfs)
     return it
+
+
+def same_content(returned: Any, written: Any) -> bool:
+    """'The value returned equals the content written to the file': equal values, or a str and the bytes that are its
+    UTF-8 encoding."""
+    if returned is None or written is None:
+        return False
+    if isinstance(returned, str) and isinstance(written, (bytes, bytearray)):
+        returned, written = written, returned
+    if isinstance(returned, (bytes, bytearray)) and isinstance(written, str):
+        try:
+            return bytes(returned).decode("utf8") == written
+        except UnicodeDecodeError:
+            return False
+    return type(returned) is type(written) and returned == written
+
+
+def as_text(content: Any) -> Any:
+    """The content of a written file as text (for the interpreters of the text formats)."""
+    if isinstance(content, (bytes, bytearray)):
+        try:
+            return bytes(content).decode("utf8")
+        except UnicodeDecodeError:
+            return content
+    return content
 
 
 def run_writer(pm: ProgramModel, cls_name: str, model: AObj, vfs: Optional[VFS] = None,
@@ -323,7 +354,7 @@ class Codec:
             ctx.violation(f"{P}-COMBINED", "rich-model:writer-raises", w["raise"][1] or self.wwhere,
                           f"combined model: writer raises {w['raise'][0]}")
             return None
-        ctx.check(w["returned"] == w["written"] and isinstance(w["returned"], text_kind), f"{P}-DUMP",
+        ctx.check(same_content(w["returned"], w["written"]) and isinstance(w["returned"], text_kind), f"{P}-DUMP",
                   "returned=written", self.wwhere, "transform returns exactly the content it writes",
                   bad=f"value returned differs from the content written "
                       f"({str(w['returned'])[:60]!r} vs {str(w['written'])[:60]!r})")
